@@ -2,9 +2,11 @@
 C13 — fail-stop: property theorems about the tools' skeleton (Sqfs/Model/FailStop.lean) and the block
 processor with fallible primitives (Sqfs/Model/FailStopBlockProc.lean).
 
-`Variant.current` is /repo as it is; `Variant.fixed` is /repo + fixes/C13-relative-output-with-packdir.patch;
-`Variant.snapshot` is the source as first pinned (regression witnesses in Sqfs/Witness/C13.lean).
-`AllChecked v` (every result of the skeleton is tested) holds for `current` and `fixed`.
+`Variant.current` is /repo as it is (HEAD d69b61b: the realpath repair b5ce20d and the three result-checking repairs
+are part of the source; standard output of rdsquashfs is *not* checked); `Variant.fixed` is /repo +
+fixes/C13-check-stdout-errors.patch; `Variant.beforeRealpath` (before b5ce20d) and `Variant.snapshot` (the source as
+first pinned) exist for the regression witnesses in Sqfs/Witness/C13.lean only.
+`AllChecked v` (every result of the skeleton is tested) holds for `current`, `fixed` and `beforeRealpath`.
 All theorems quantify over every configuration `c` and every fault script `fs : List Bool`.
 
 What these theorems are and are not: they are statements about the *model*.  Their C-specific content is the
@@ -132,9 +134,11 @@ theorem cleanup_unlinks_the_stored_name (v : Variant) (c : Cfg) (fs : List Bool)
         · cases hn : nameResolves c t4 <;> simp [cleanup, unlinkOut, hn]
         · simp
 
-/-- a failure while packing, after `chdir`: /repo as it is leaves the file, the repaired source removes it -/
-example := cleanup_unlinks_the_stored_name .current exCfg (single 24) (by decide) (by decide)
-example := cleanup_unlinks_the_stored_name .fixed exCfg (single 24) (by decide) (by decide)
+/-- a failure while packing, after `chdir`: the source before b5ce20d left the file, /repo as it is removes it -/
+example := cleanup_unlinks_the_stored_name .beforeRealpath exCfg (single 24) (by decide) (by decide)
+example := cleanup_unlinks_the_stored_name .current exCfg (single 25) (by decide) (by decide)
+example : (run .beforeRealpath exCfg (single 24)).out = .present ∧ (run .current exCfg (single 25)).out = .unlinked
+    ∧ (run .current exCfg (single 25)).trace.failed = some (.packFile 2) := by decide
 
 /-- The paths on which the cleanup is **not** reached, precisely: a failure reported by a site that runs before
     the writer exists (tar2sqfs.c:20-34) or inside `sqfs_writer_init`; `main` then returns `EXIT_FAILURE`
@@ -165,45 +169,47 @@ theorem cleanup_not_reached_only_in_init (v : Variant) (c : Cfg) (fs : List Bool
 example := cleanup_not_reached_only_in_init .fixed exCfg (single 7) (by decide)
 example := cleanup_not_reached_only_in_init .current exTar (single 1) (by decide)
 
-/-- **A failing run of the repaired packers never leaves the output file behind**, whichever site fails, whatever
-    the output name looks like and wherever `pack_files` went (fixes/C13-relative-output-with-packdir.patch).
-    For /repo as it is the statement is false: `Witness.C13.relative_output_left_behind`. -/
-theorem failure_never_leaves_output (c : Cfg) (fs : List Bool) :
-    (run .fixed c fs).status ≠ 0 → (run .fixed c fs).out ≠ .present := by
+/-- **A failing run of the packers never leaves the output file behind**, whichever site fails, whatever the output
+    name looks like and wherever `pack_files` went — for every source in which a failed `sqfs_writer_init` removes
+    the file and `main` resolves the output name before `pack_files` changes directory: /repo as it is
+    (`Variant.current`, since b5ce20d) and `Variant.fixed`.  For the source before b5ce20d the statement is false:
+    `Witness.C13.relative_output_left_behind`. -/
+theorem failure_never_leaves_output (v : Variant) (hi : v.initUnlinks = true) (ha : v.outPathAbsolute = true)
+    (c : Cfg) (fs : List Bool) :
+    (run v c fs).status ≠ 0 → (run v c fs).out ≠ .present := by
   have s0 : Safe ({} : Trace) := Or.inr rfl
   unfold run
-  rcases h1 : runSites .fixed c 0 (preSites c) fs {} with ⟨ok1, fs1, t1⟩
+  rcases h1 : runSites v c 0 (preSites c) fs {} with ⟨ok1, fs1, t1⟩
   have s1 := safe_phase _ _ _ _ _ _ _ _ (chdirPack_not_mem_pre c) h1 s0
   cases ok1
   · simp
   · simp only []
-    rcases h2 : runSites .fixed c 0 (initSites c) fs1 t1 with ⟨ok2, fs2, t2⟩
+    rcases h2 : runSites v c 0 (initSites c) fs1 t1 with ⟨ok2, fs2, t2⟩
     have s2 := safe_phase _ _ _ _ _ _ _ _ (chdirPack_not_mem_init c) h2 s1
     cases ok2
-    · simp only [afterFailedInit, Variant.fixed, unlinkOut, nameResolves_of_safe c t2 s2]
+    · simp only [afterFailedInit, hi, unlinkOut, nameResolves_of_safe c t2 s2]
       intro _
       split <;> simp
     · simp only []
-      rcases h3 : runSites .fixed c 0 (bodySites .fixed c) fs2 t2 with ⟨ok3, fs3, t3⟩
-      have s3 := safe_body_fixed _ _ _ _ _ _ h3 s2
+      rcases h3 : runSites v c 0 (bodySites v c) fs2 t2 with ⟨ok3, fs3, t3⟩
+      have s3 := safe_body_abs v ha _ _ _ _ _ _ h3 s2
       cases ok3
       · simp [cleanup, unlinkOut, nameResolves_of_safe c t3 s3]
       · simp only []
-        rcases h4 : runSites .fixed c 0 (finishSites c) fs3 t3 with ⟨ok4, fs4, t4⟩
+        rcases h4 : runSites v c 0 (finishSites c) fs3 t3 with ⟨ok4, fs4, t4⟩
         have s4 := safe_phase _ _ _ _ _ _ _ _ (chdirPack_not_mem_finish c) h4 s3
         cases ok4 <;> simp [cleanup, unlinkOut, nameResolves_of_safe c t4 s4]
 
-example := failure_never_leaves_output exCfg (single 24) (by decide)
-example := failure_never_leaves_output exCfg (single 7) (by decide)
+/-- /repo as it is: a fault while packing (behind the `chdir`), a fault inside `sqfs_writer_init` -/
+example := failure_never_leaves_output .current rfl rfl exCfg (single 25) (by decide)
+example := failure_never_leaves_output .current rfl rfl exCfg (single 7) (by decide)
+example := failure_never_leaves_output .fixed rfl rfl exTar (single 20) (by decide)
 
-/-  Full statement for /repo as it is — FALSE (Witness.C13.not_failure_never_leaves_output_current):
-      theorem failure_never_leaves_output_current (c : Cfg) (fs : List Bool) :
-          (run .current c fs).status ≠ 0 → (run .current c fs).out ≠ .present
-    What does hold of the current source is the statement restricted to the command lines on which the defect
-    cannot show: -/
-/-- /repo as it is: a failing run removes its output **provided** the output name is absolute or no pack
-    directory is given (every variant in which a failed init removes the file).  Missing for the full statement:
-    relative output name × `--pack-dir`, where it is false. -/
+/-- The same for every source in which a failed init removes the file (so also the one before b5ce20d),
+    **provided** the output name is absolute or no pack directory is given — the command lines on which the
+    working directory cannot matter.  Kept because it is what held of /repo before b5ce20d (regression: the full
+    statement was false there, `Witness.C13.not_failure_never_leaves_output_beforeRealpath`); for /repo as it is
+    the full statement above supersedes it. -/
 theorem failure_never_leaves_output_partial (v : Variant) (hv : v.initUnlinks = true) (c : Cfg) (fs : List Bool) :
     (c.relOut = false ∨ c.packDir = false) →
     (run v c fs).status ≠ 0 → (run v c fs).out ≠ .present := by
@@ -253,8 +259,8 @@ theorem failure_never_leaves_output_partial (v : Variant) (hv : v.initUnlinks = 
         cases ok4 <;> simp [cleanup, unlinkOut, n4]
 
 /-- both disjuncts of the side condition: absolute output name; no pack directory -/
-example := failure_never_leaves_output_partial .current rfl { exCfg with relOut := false } (single 24) (Or.inl rfl) (by decide)
-example := failure_never_leaves_output_partial .current rfl { exCfg with packDir := false } (single 24) (Or.inr rfl) (by decide)
+example := failure_never_leaves_output_partial .beforeRealpath rfl { exCfg with relOut := false } (single 24) (Or.inl rfl) (by decide)
+example := failure_never_leaves_output_partial .beforeRealpath rfl { exCfg with packDir := false } (single 24) (Or.inr rfl) (by decide)
 
 /-- **A failing run reports a site of the program, and stops there** (every variant, every configuration, every
     script): a run that does not exit 0 has recorded exactly one failing site `s`; `s` is a site of the program of
@@ -289,11 +295,11 @@ theorem failure_reports_site (v : Variant) (c : Cfg) (fs : List Bool) :
           exact ⟨s, by simp [hs], hf, hl⟩
         · simp
 
-/-- instance: the 31st site of the example run fails (`sqfs_id_table_write`); it is reported and is the last one run -/
-example : ∃ s, s ∈ program .current exCfg ∧ (run .current exCfg (single 30)).trace.failed = some s ∧
-    (run .current exCfg (single 30)).trace.ran.getLast? = some s :=
-  failure_reports_site .current exCfg (single 30) (by decide)
-example : (run .current exCfg (single 30)).trace.failed = some .idTable := by decide
+/-- instance: the 32nd site of the example run fails (`sqfs_id_table_write`); it is reported and is the last one run -/
+example : ∃ s, s ∈ program .current exCfg ∧ (run .current exCfg (single 31)).trace.failed = some s ∧
+    (run .current exCfg (single 31)).trace.ran.getLast? = some s :=
+  failure_reports_site .current exCfg (single 31) (by decide)
+example : (run .current exCfg (single 31)).trace.failed = some .idTable := by decide
 
 /-- **Every modelled site prints a diagnostic when it fails** — *definition-level*: this is a fact about the
     hand-written table `diagOnFail` (one line per site of the C sources; all-true once the export-table repair is
@@ -318,7 +324,7 @@ theorem failure_has_diagnostic (v : Variant) (hv : v.exportChecked = true) (c : 
   obtain ⟨s, hs, hf, hl⟩ := failure_reports_site v c fs h
   exact ⟨s, hs, hf, hl, all_sites_have_diagnostic v hv s⟩
 
-example := failure_has_diagnostic .current rfl exCfg (single 30) (by decide)
+example := failure_has_diagnostic .current rfl exCfg (single 31) (by decide)
 
 /-- **A run with exit 0 performed exactly the fault-free sequence**: same output-producing steps in the same
     order, same progress messages, same sites — the whole result equals the fault-free one (every variant in
@@ -406,20 +412,20 @@ theorem first_failure_stops {v : Variant} (hA : AllChecked v) (c : Cfg) (fs : Li
   · rw [ht]; simp [failAt, okAll_ops]
   · rw [ht]; simp [failAt, List.getD_eq_getElem?_getD, List.getElem?_eq_getElem hk]
 
-example := first_failure_stops fixed_allChecked exCfg (single 25) 25 (by decide) (allFalse_single 25) (single_getD 25)
+example := first_failure_stops current_allChecked exCfg (single 25) 25 (by decide) (allFalse_single 25) (single_getD 25)
 example := first_failure_stops current_allChecked exTar (single 3) 3 (by decide) (allFalse_single 3) (single_getD 3)
 
 /-! ### the readers: sqfs2tar and rdsquashfs -/
 
-/-- **sqfs2tar / rdsquashfs exit 0 only when nothing failed**: the script has no fault at any site of `main` and
-    every site ran. -/
-theorem reader_status_success_no_fault (c : RCfg) (fs : List Bool) :
-    (runReader c fs).status = 0 →
-      allFalse (readerSites c).length fs ∧ (runReader c fs).trace.ran = readerSites c ∧
-      (runReader c fs).trace.failed = none := by
+/-- **sqfs2tar / rdsquashfs exit 0 only when no call of `main` failed**: the script has no fault at any site of
+    `main` and every site ran (every source in which every result is tested: /repo as it is and the repaired one). -/
+theorem reader_status_success_no_fault {v : Variant} (hA : AllChecked v) (c : RCfg) (fs : List Bool) :
+    (runReader v c fs).status = 0 →
+      allFalse (readerSites v c).length fs ∧ (runReader v c fs).trace.ran = readerSites v c ∧
+      (runReader v c fs).trace.failed = none := by
   unfold runReader
-  rw [runSites_checked current_allChecked]
-  cases hft : firstTrue (readerSites c).length fs with
+  rw [runSites_checked hA]
+  cases hft : firstTrue (readerSites v c).length fs with
   | some k => simp
   | none =>
     intro _
@@ -427,26 +433,137 @@ theorem reader_status_success_no_fault (c : RCfg) (fs : List Bool) :
     · simp [okAll_ran]
     · simp [okAll_failed]
 
-example := reader_status_success_no_fault { sqfs2tar := true, compressed := true, nentries := 3 } [] (by decide)
+example := reader_status_success_no_fault current_allChecked { sqfs2tar := true, compressed := true, nentries := 3 } [] (by decide)
+example := reader_status_success_no_fault fixed_allChecked { sqfs2tar := false, op := .describe } [false] (by decide)
 
 /-- **The first failure stops sqfs2tar / rdsquashfs**: exit 1, the sites executed are the first `k+1`, the
     `k`-th is the one reported. -/
-theorem reader_first_failure_stops (c : RCfg) (fs : List Bool) (k : Nat) :
-    k < (readerSites c).length → allFalse k fs → fs.getD k false = true →
-      (runReader c fs).status = 1 ∧
-      (runReader c fs).trace.ran = (readerSites c).take (k + 1) ∧
-      (runReader c fs).trace.failed = (readerSites c)[k]? := by
+theorem reader_first_failure_stops {v : Variant} (hA : AllChecked v) (c : RCfg) (fs : List Bool) (k : Nat) :
+    k < (readerSites v c).length → allFalse k fs → fs.getD k false = true →
+      (runReader v c fs).status = 1 ∧
+      (runReader v c fs).trace.ran = (readerSites v c).take (k + 1) ∧
+      (runReader v c fs).trace.failed = (readerSites v c)[k]? := by
   intro hk haf hf
-  have hft : firstTrue (readerSites c).length fs = some k := (firstTrue_some _ _ _).2 ⟨hk, haf, hf⟩
+  have hft : firstTrue (readerSites v c).length fs = some k := (firstTrue_some _ _ _).2 ⟨hk, haf, hf⟩
   unfold runReader
-  rw [runSites_checked current_allChecked, hft]
+  rw [runSites_checked hA, hft]
   refine ⟨rfl, ?_, ?_⟩
   · simp only [failAt, okAll_ran, List.nil_append]
     exact (take_succ_getD _ _ _ hk).symm
   · simp [failAt, List.getD_eq_getElem?_getD, List.getElem?_eq_getElem hk]
 
-example := reader_first_failure_stops { sqfs2tar := false, op := .cat, nsplice := 3 } (single 14) 14 (by decide)
+example := reader_first_failure_stops current_allChecked { sqfs2tar := false, op := .cat, nsplice := 3 } (single 14) 14 (by decide)
   (allFalse_single 14) (single_getD 14)
+/-- the repaired rdsquashfs -d: the 13th site is the test of `fflush(stdout)`; when it fails the run exits 1 there -/
+example : (readerSites .fixed { sqfs2tar := false, op := .describe })[12]? = some .rStdoutFlush := by decide
+example := reader_first_failure_stops fixed_allChecked { sqfs2tar := false, op := .describe } (single 12) 12 (by decide)
+  (allFalse_single 12) (single_getD 12)
+
+/-- **Exit 0 ⇒ the results reached standard output** (clause "a run that exits with status 0 has produced exactly
+    the output of a fault-free run", for what rdsquashfs -l, -s, -d, -x print through stdio): in every source that
+    tests `fflush(stdout)` / `ferror(stdout)` before `status = EXIT_SUCCESS`, for every configuration and every fault
+    script — including a write error on standard output at any time — a run that exits 0 lost nothing.
+    Holds for `Variant.fixed` (fixes/C13-check-stdout-errors.patch). -/
+theorem reader_exit0_results_delivered (v : Variant) (hs : v.stdoutChecked = true) (c : RCfg) (fs : List Bool) :
+    (runReader v c fs).status = 0 → (runReader v c fs).stdoutLost = false := by
+  unfold runReader
+  rcases runSites v {} 0 (readerSites v c) fs {} with ⟨ok, fs', t⟩
+  cases ok <;> simp [hs]
+
+example := reader_exit0_results_delivered .fixed rfl { sqfs2tar := false, op := .describe } (single 12)
+/-- non-vacuous: the repaired source does exit 0 (fault-free), and a failing flush makes it exit 1 -/
+example : (runReader .fixed { sqfs2tar := false, op := .describe } []).status = 0 ∧
+    (runReader .fixed { sqfs2tar := false, op := .describe } (single 12)).status = 1 ∧
+    (runReader .fixed { sqfs2tar := false, op := .describe } (single 12)).trace.failed = some .rStdoutFlush := by decide
+
+/-  Full statement for /repo as it is — FALSE (Witness.C13.not_reader_exit0_results_delivered_current; reproduced on
+    the real tool on every run: `rdsquashfs -d img >/dev/full` exits 0; known finding until the patch is committed):
+      theorem reader_exit0_results_delivered_current (c : RCfg) (fs : List Bool) :
+          (runReader .current c fs).status = 0 → (runReader .current c fs).stdoutLost = false
+    What does hold of the current source: -/
+/-- /repo as it is: exit 0 ⇒ nothing was lost **provided** the operation does not hand its results to stdio
+    (sqfs2tar, rdsquashfs -c and -u: their output goes through `write(2)`, every result tested), *or* standard
+    output accepted the exit-time flush.  Missing for the full statement: rdsquashfs -l / -s / -d / -x with a write
+    error on standard output, where it is false. -/
+theorem reader_exit0_results_delivered_partial {v : Variant} (hA : AllChecked v) (c : RCfg) (fs : List Bool) :
+    (printsResults c = false ∨ fs.getD (readerSites v c).length false = false) →
+    (runReader v c fs).status = 0 → (runReader v c fs).stdoutLost = false := by
+  intro hc
+  unfold runReader
+  rw [runSites_checked hA]
+  cases hft : firstTrue (readerSites v c).length fs with
+  | some k => simp
+  | none =>
+    simp only []
+    intro _
+    rcases hc with hc | hc
+    · simp [hc]
+    · have : (fs.drop (readerSites v c).length).headD false = fs.getD (readerSites v c).length false := by
+        simp [List.headD_eq_head?_getD, List.head?_drop, List.getD_eq_getElem?_getD]
+      rw [this, hc]; simp
+
+/-- both disjuncts: rdsquashfs -c with a failing exit-time flush (nothing is in the stdio buffer); -d without one -/
+example := reader_exit0_results_delivered_partial current_allChecked { sqfs2tar := false, op := .cat, nsplice := 2 }
+  (single 15) (Or.inl rfl) (by decide)
+example := reader_exit0_results_delivered_partial current_allChecked { sqfs2tar := false, op := .describe } [] (Or.inr rfl) (by decide)
+
+/-! ### the specification, evaluated on the model
+
+`Spec.failStopOk` is the predicate the check evaluates on what it observes of every real run.  The two theorems
+below say that the *model* of the repaired tools satisfies it on every run — they are the composition of the
+clause theorems above (status, diagnostic, output removed, exit 0 = fault-free), with "same output" read as
+"same step sequence" (`observed`, `observedReader` in Sqfs/Proofs/FailStop.lean).  No crash clause: a Lean
+function cannot crash (`crashed := false` by construction). -/
+
+/-- **The packers' skeleton is fail-stop** in the sense of `Spec.failStopOk`, for every configuration and every
+    fault script, in every source with all results checked, init removing the file, the output name resolved and
+    the export-table diagnostic: /repo as it is and `Variant.fixed`. -/
+theorem packer_meets_spec {v : Variant} (hA : AllChecked v) (hi : v.initUnlinks = true) (ha : v.outPathAbsolute = true)
+    (he : v.exportChecked = true) (c : Cfg) (fs : List Bool) :
+    Spec.failStopOk (observed v c fs) = true := by
+  unfold Spec.failStopOk observed
+  by_cases h : (run v c fs).status = 0
+  · have e := exit0_output_eq_fault_free hA c fs h
+    simp only [h, beq_self_eq_true, if_true, Bool.not_false, Bool.true_and]
+    exact beq_iff_eq.2 e
+  · obtain ⟨s, _, hf, _, hd⟩ := failure_has_diagnostic v he c fs h
+    have hl := failure_never_leaves_output v hi ha c fs h
+    have h0 : ((run v c fs).status == 0) = false := by simpa using h
+    have hl' : ((run v c fs).out == OutFile.present) = false := by simpa using hl
+    simp [h0, hf, hd, hl']
+
+example : Spec.failStopOk (observed .current exCfg (single 25)) = true :=
+  packer_meets_spec current_allChecked rfl rfl rfl exCfg (single 25)
+/-- the predicate is not constant on model runs: the source before b5ce20d fails it on the same run -/
+example : Spec.failStopOk (observed .beforeRealpath exCfg (single 24)) = false := by decide
+example : Spec.verdict (observed .beforeRealpath exCfg (single 24)) = "failure-output-left" := by decide
+
+/-- **The readers' skeleton is fail-stop** in the sense of `Spec.failStopOk` once standard output is checked
+    (`Variant.fixed`); for /repo as it is see `Witness.C13.current_reader_violates_spec`. -/
+theorem reader_meets_spec {v : Variant} (hA : AllChecked v) (hs : v.stdoutChecked = true) (c : RCfg) (fs : List Bool) :
+    Spec.failStopOk (observedReader v c fs) = true := by
+  unfold Spec.failStopOk observedReader
+  by_cases h : (runReader v c fs).status = 0
+  · have hl := reader_exit0_results_delivered v hs c fs h
+    obtain ⟨hff, _, _⟩ := reader_status_success_no_fault hA c fs h
+    have ht : (runReader v c fs).trace = (runReader v c []).trace := by
+      unfold runReader
+      rw [runSites_clean v {} _ _ _ hff, runSites_clean v {} _ _ _ (allFalse_nil _)]
+    simp only [h, beq_self_eq_true, if_true, Bool.not_false, Bool.true_and, hl]
+    simp [ht]
+  · have h0 : ((runReader v c fs).status == 0) = false := by simpa using h
+    have hfail : (runReader v c fs).trace.failed.isSome = true := by
+      unfold runReader at h ⊢
+      rcases hr : runSites v {} 0 (readerSites v c) fs {} with ⟨ok, fs', t⟩
+      rw [hr] at h
+      cases ok
+      · obtain ⟨s, _, hf⟩ := runSites_false_failed _ _ _ _ _ _ _ _ hr
+        simp [hf]
+      · simp at h
+    simp [h0, hfail]
+
+example : Spec.failStopOk (observedReader .fixed { sqfs2tar := false, op := .describe } (single 12)) = true :=
+  reader_meets_spec fixed_allChecked rfl _ _
 
 /-! ### second layer: the block processor with fallible primitives -/
 
@@ -507,25 +624,26 @@ example := blockproc_error_propagates BP.current_checked 4 .sync
 
 example : (run .fixed exCfg []).status = 0 ∧ (run .current exCfg []).status = 0 := by decide
 example : (run .fixed exCfg []).trace.ops.length = 14 := by decide
-example : (program .fixed exCfg).length = 35 ∧ (program .current exCfg).length = 34 := by decide
+example : (program .fixed exCfg).length = 35 ∧ (program .current exCfg).length = 35 ∧ (program .beforeRealpath exCfg).length = 34 := by decide
 example : (run .current exTar []).trace.ran.length = 37 := by decide
 -- init failure: cleanup not reached
 example : (run .fixed exCfg (single 7)).status ≠ 0 ∧ (run .fixed exCfg (single 7)).cleanupReached = false
     ∧ (run .fixed exCfg (single 7)).out = .unlinked := by decide
--- failure while packing: cleanup reached after `chdir`; the repaired source still hits the file
-example : (run .fixed exCfg (single 24)).status ≠ 0 ∧ (run .fixed exCfg (single 24)).cleanupReached = true
-    ∧ (run .fixed exCfg (single 24)).trace.cwd = .pack ∧ (run .fixed exCfg (single 24)).unlinkHit = some true := by decide
+-- failure while packing: cleanup reached after `chdir`; the absolute name still hits the file
+example : (run .current exCfg (single 24)).status ≠ 0 ∧ (run .current exCfg (single 24)).cleanupReached = true
+    ∧ (run .current exCfg (single 24)).trace.cwd = .pack ∧ (run .current exCfg (single 24)).unlinkHit = some true := by decide
 example : 25 < (program .fixed exCfg).length ∧ allFalse 25 (single 25) ∧ (single 25).getD 25 false = true := by
   refine ⟨by decide, ?_, by decide⟩
   unfold allFalse
   decide
 example : (run .current { exCfg with tool := .tar2sqfs } (single 0)).out = .never := by decide
 -- hypothesis of the partial theorem: absolute name, pack directory given
-example : (run .current { exCfg with relOut := false } (single 24)).out = .unlinked := by decide
+example : (run .beforeRealpath { exCfg with relOut := false } (single 24)).out = .unlinked := by decide
 -- readers
-example : (runReader { sqfs2tar := true, compressed := true, nentries := 3 } []).status = 0 := by decide
-example : (readerSites { sqfs2tar := false, op := .unpack, unpackRoot := true }).length = 17 := by decide
-example : (runReader { sqfs2tar := false, op := .cat, nsplice := 3 } (single 14)).trace.failed = some (.rSplice 1) := by decide
+example : (runReader .current { sqfs2tar := true, compressed := true, nentries := 3 } []).status = 0 := by decide
+example : (readerSites .current { sqfs2tar := false, op := .unpack, unpackRoot := true }).length = 17 ∧
+    (readerSites .fixed { sqfs2tar := false, op := .unpack, unpackRoot := true }).length = 18 := by decide
+example : (runReader .current { sqfs2tar := false, op := .cat, nsplice := 3 } (single 14)).trace.failed = some (.rSplice 1) := by decide
 
 /-- hypothesis of `blockproc_error_propagates` is satisfiable: the inode allocation of `begin_file` fails -/
 example : (BP.runCall .current 4 (.beginFile true false false false) {} [true]).1.faulted = true := by decide
